@@ -19,6 +19,7 @@ func init() {
 			"atomicity of kvdb transactions themselves (trusted)",
 		},
 		Assumptions: commonAssumptions,
+		Engines:     "PATH (must-pass-through on the flow graph), CODEC (trace agreement), TABLE, WHO",
 		Run:         runC02,
 	})
 }
